@@ -282,6 +282,54 @@ func c17BFS(c *Ctx, k Kind) *mc.BFS {
 	}
 }
 
+// c17Key is an ID type a program may declare: a named string with its own String method.
+type c17Key string
+
+func (k c17Key) String() string { return "key/" + string(k) }
+
+// c17NamedID: a wrapped struct whose ID field is of a named string type that prints differently:
+// the id read back is the id written, the fresh id is empty, and it equals its soft twin.
+func c17NamedID(x *mc.Exec) {
+	st := reflect.StructOf([]reflect.StructField{
+		{Name: "ID", Type: reflect.TypeOf(c17Key("")), Tag: `json:"id" api:"t"`},
+		{Name: "S", Type: reflect.TypeOf(""), Tag: `json:"s" api:"attr"`},
+	})
+	ids := []string{"abc", "", "key/abc", " x "}
+	var w *j.Wrapper
+	if p := Try(func() { w = j.Wrap(reflect.New(st).Interface()) }); p != "" {
+		return // such a struct is refused: nothing to read back
+	}
+	typ := w.GetType()
+	soft := &j.SoftResource{Type: &typ}
+	desc := "fresh"
+	check := func(want string) {
+		var got any
+		var eq bool
+		p := Try(func() {
+			got = w.Get("id")
+			eq = j.EqualStrict(soft, w) && j.EqualStrict(w, soft)
+		})
+		x.R.Add("transitions", 2)
+		if p != "" || got != want {
+			x.Fail("C17:named-id:get-id", "wrapped struct with an ID of a named string type, after [%s]: Get(id) = %v (panic %q), want %q", desc, got, p, want)
+		} else if !eq {
+			x.Fail("C17:named-id:equal", "wrapped struct with an ID of a named string type, after [%s]: not EqualStrict to a soft resource given the same calls", desc)
+		}
+	}
+	check("")
+	for i := 0; i < 2; i++ {
+		id := ids[x.Choose(len(ids), "id")]
+		desc += fmt.Sprintf("; Set(id, %q)", id)
+		if p := Try(func() { w.Set("id", id); soft.Set("id", id) }); p != "" {
+			x.Fail("C17:named-id:set-panic", "after [%s]: Set panicked: %s", desc, p)
+			return
+		}
+		check(id)
+	}
+	x.Render(desc)
+	x.R.Mark("nontrivial", mc.Hash(desc))
+}
+
 // fresh resources: Type.New, Wrapper.New, SoftResource.New
 func c17Fresh(x *mc.Exec) {
 	kinds := AllKinds()
@@ -512,7 +560,7 @@ func c17Equal(x *mc.Exec) {
 func init() {
 	Register(&Prop{
 		ID: "C17",
-		Rule: "Engine B: for each of the 28 kinds, breadth-first search over ALL Set histories (depth <= 4 quick / 8 thorough) on a soft resource and a struct-wrapped resource of the same type driven side by side (3 values of the kind + typed nil + untyped nil for nullable kinds, 2 values each for a string attribute, to-one, to-many and id), de-duplicated by deep snapshot; after every Set the caller overwrites in place the value it handed to the previous Set of that field; two searches: in the first nothing is read between the operations of a history ('read everything' is an operation of its own), in the second everything is read after every Set; after the last step every observable (GetType().Name, Attrs, Rels, attribute definition, Get of every field and id) of both implementations is compared with a map model. Engine A: 28 kinds x 5 constructors of fresh resources (Type.New soft/struct, SoftResource.New, Wrapper.New, Wrapper.New after Set); all ordered pairs of a pool of 29 resource variants (incl. one instant read in two zones) x {soft,wrapped} that differ from a base in exactly one aspect, for reflexivity, symmetry and 'never equal when different'",
+		Rule: "Engine B: for each of the 28 kinds, breadth-first search over ALL Set histories (depth <= 4 quick / 8 thorough) on a soft resource and a struct-wrapped resource of the same type driven side by side (3 values of the kind + typed nil + untyped nil for nullable kinds, 2 values each for a string attribute, to-one, to-many and id), de-duplicated by deep snapshot; after every Set the caller overwrites in place the value it handed to the previous Set of that field; two searches: in the first nothing is read between the operations of a history ('read everything' is an operation of its own), in the second everything is read after every Set; after the last step every observable (GetType().Name, Attrs, Rels, attribute definition, Get of every field and id) of both implementations is compared with a map model. Engine A: a wrapped struct whose ID is of a named string type with its own String method, under all sequences of two Set(id) over 4 ids; 28 kinds x 5 constructors of fresh resources (Type.New soft/struct, SoftResource.New, Wrapper.New, Wrapper.New after Set); all ordered pairs of a pool of 29 resource variants (incl. one instant read in two zones) x {soft,wrapped} that differ from a base in exactly one aspect, for reflexivity, symmetry and 'never equal when different'",
 		Assumptions: []string{"an unset byte string reads as empty or nil, a nil nullable as typed or untyped nil (as stated)", "one instant read in two zones counts as two different field values (they print, marshal and compare with == differently)", "a value handed to an earlier Set and since replaced belongs to the caller again"},
 		Harnesses: []Harness{
 			{Name: "C17/set-histories",
@@ -560,6 +608,7 @@ func init() {
 					return all
 				}},
 			{Name: "C17/fresh", Body: c17Fresh},
+			{Name: "C17/named-id", Body: c17NamedID},
 			{Name: "C17/equal", Body: c17Equal},
 		},
 	})
